@@ -227,7 +227,8 @@ end
 /-- syntactic shape of the source of an assignment / return (the interpreter's shortcuts look at it) -/
 inductive Shape where
   | plain            -- identifier, literal, call, conversion, index
-  | unary            -- non-constant unary expression (incl. receive)
+  | unary            -- non-constant unary expression
+  | recv             -- channel receive
   | arith (op : BinOp)
   | cmp
   | shift
@@ -282,8 +283,8 @@ structure Rules where
   call : List STy → List Opnd → Res Unit
   /-- a call used as a value -/
   callValue : List STy → Res Opnd
-  /-- `decl = true`: `var v T = e`; `false`: `v = e` -/
-  assign : Bool → Shape → Ty → Opnd → Res Unit
+  /-- `decl = true`: `var v T = e`; `false`: `v = e`. The result is the type the variable has afterwards. -/
+  assign : Bool → Shape → Ty → Opnd → Res Ty
   define : Opnd → Res Ty
   opassign : BinOp → Ty → Opnd → Res Unit
   shassign : ShOp → Ty → Opnd → Res Unit
@@ -308,7 +309,7 @@ def litOpnd (u : UKind) (v : Int) (frac : Bool) : Opnd :=
 
 def Expr.shape : Expr → Shape
   | .un _ _ => .unary
-  | .recv _ => .unary
+  | .recv _ => .recv
   | .bin op _ _ => .arith op
   | .cmp _ _ _ => .cmp
   | .shift _ _ _ => .shift
@@ -367,8 +368,8 @@ mutual
   def checkS (R : Rules) (env : Env) : Stmt → Res (List Ty)
     | .decl t e => do
       let x ← checkE R env (zoneOf t) e
-      R.assign true (shapeOf e x) t x
-      .ok (env.vars ++ [t])
+      let t' ← R.assign true (shapeOf e x) t x
+      .ok (env.vars ++ [t'])
     | .declz t => .ok (env.vars ++ [t])
     | .define e => do
       let x ← checkE R env none e
@@ -378,8 +379,8 @@ mutual
       | none => .err
       | some t => do
         let x ← checkE R env (zoneOf t) e
-        R.assign false (shapeOf e x) t x
-        .ok env.vars
+        let t' ← R.assign false (shapeOf e x) t x
+        .ok (env.vars.set i t')
     | .opassign op i e => match env.vars[i]? with
       | none => .err
       | some t => do
